@@ -7,6 +7,7 @@ from __future__ import annotations
 
 import itertools
 import zlib
+from fractions import Fraction
 
 import lib
 from lib import PropertyCheck, clist, cstr, cz
@@ -178,19 +179,125 @@ def container(kind, items):
     raise ValueError(kind)
 
 
+# ----------------------------------------------------------------------------------------------
+# dtypes and exactly representable data.  Every entry is  numerator / den  with den in
+# {1, 2, 2**31}: integers (den 1), half-integers (den 2: a cast to an integer dtype truncates
+# them) or, for 64-bit inexact dtypes under jax_enable_x64, integers + {1,2,3} * 2**-31 (a cast to
+# a 32-bit float dtype rounds them).  Complex dtypes get an imaginary part of the same form.
+# The Coq model computes with the numerators (Z), the observation is scaled back by the
+# denominators: einsum is bilinear, every product and sum below is exact in the dtypes used.
+
+DEFAULT_SUBS = 'ij...,j...->i...'
+FINE = 2**31
+
+
+def dt_kind(dt: str) -> str:
+    return 'c' if dt.startswith('complex') else 'f' if dt.startswith('float') else 'i'
+
+
+def dt_wide(dt: str) -> bool:
+    return dt in ('float64', 'complex128')
+
+
+def nums_for(base, den, dt):
+    """Numerators over `den` for an array of dtype `dt` from the small integers `base`."""
+    if den == 1:
+        return list(base)
+    if dt_kind(dt) == 'i':
+        return [v * den for v in base]
+    if den == FINE and dt_wide(dt):
+        return [v * den + 1 + (n % 3) for n, v in enumerate(base)]
+    return [(2 * v + 1) * (den // 2) for v in base]
+
+
+def case_dtypes(case):
+    """(block dtypes per block array, leaf dtypes per leaf, denB, denx, deny)."""
+    nl = len(case['leaves'])
+    nb = nl if case['mode'] == 'perleaf' else 1
+    bdt = case.get('bdt') or ['float32'] * nb
+    xdt = case.get('xdt') or ['float32'] * nl
+    return bdt, xdt, case.get('denB', 1), case.get('denx', 1), case.get('deny', 1)
+
+
+def block_nums(case):
+    """[(re numerators, im numerators or None)] per block array."""
+    bdt, _, denB, _, _ = case_dtypes(case)
+    out = []
+    for n, dt in enumerate(bdt):
+        sh = case['leaves'][n]['shB']
+        re_ = nums_for(block_data(sh, n), denB, dt)
+        im_ = nums_for(block_data(sh, n + 5), denB, dt) if dt_kind(dt) == 'c' else None
+        out.append((re_, im_))
+    return out
+
+
+def leaf_nums(case, which):
+    """[(re, im or None)] per leaf for the inputs of op ('x') or of op.T ('y': real valued)."""
+    bdt, xdt, _, denx, deny = case_dtypes(case)
+    out = []
+    for n, lf in enumerate(case['leaves']):
+        if which == 'x':
+            re_ = nums_for(vec_data(lf['shx'], 1 + n), denx, xdt[n])
+            im_ = nums_for(vec_data(lf['shx'], 4 + n), denx, xdt[n]) if dt_kind(xdt[n]) == 'c' else None
+        else:
+            ydt = expected_out_dtype(bdt[n if len(bdt) > 1 else 0], xdt[n])
+            re_ = nums_for(vec_data(lf['shy'], 2 + n), deny, ydt)
+            im_ = None
+        out.append((re_, im_))
+    return out
+
+
+def expected_out_dtype(bdt: str, xdt: str) -> str:
+    """dtype of einsum(blocks, leaf): JAX's type promotion (independent of furax)."""
+    return str(impl()['jnp'].promote_types(bdt, xdt))
+
+
+def exact_np(re_, im_, den, sh, dt, strict=True):
+    """NumPy array of dtype dt holding re/den (+ 1j*im/den); strict: must be exactly representable."""
+    np = impl()['np']
+    a = np.array(re_, dtype=np.float64) / den
+    if im_ is not None:
+        a = a + 1j * (np.array(im_, dtype=np.float64) / den)
+    a = a.reshape(sh)
+    b = a.astype(dt)
+    if strict and not np.array_equal(b.astype(a.dtype), a):
+        raise AssertionError(f'case data not representable in {dt}')
+    return a, b
+
+
+def numlist(a):
+    """Flat list of the entries; complex entries as [re, im] pairs (no '-0' string artefacts)."""
+    np = impl()['np']
+    a = np.asarray(a)
+    if np.iscomplexobj(a):
+        return np.stack([a.real, a.imag], -1).reshape(-1, 2).tolist()
+    return a.ravel().tolist()
+
+
 def build_op(case):
     im = impl()
-    jnp, jax, np = im['jnp'], im['jax'], im['np']
+    jnp, jax = im['jnp'], im['jax']
     leaves = case['leaves']
-    f32 = jnp.float32
-    Bs = [jnp.asarray(np.array(block_data(lf['shB'], n), dtype=np.float32).reshape(lf['shB'])) for n, lf in enumerate(leaves)]
-    structs = [jax.ShapeDtypeStruct(tuple(lf['shx']), f32) for lf in leaves]
+    bdt, xdt, denB, _, _ = case_dtypes(case)
+    Bs, Bex = [], []
+    for n, (re_, im_) in enumerate(block_nums(case)):
+        ex, a = exact_np(re_, im_, denB, leaves[n]['shB'], bdt[n])
+        B = jnp.asarray(a)
+        if str(B.dtype) != bdt[n]:
+            raise AssertionError(f'blocks dtype {B.dtype}, wanted {bdt[n]}')
+        Bs.append(B)
+        Bex.append(ex)
+    structs = [jax.ShapeDtypeStruct(tuple(lf['shx']), jnp.dtype(xdt[n])) for n, lf in enumerate(leaves)]
     if case['mode'] == 'perleaf':
         blocks = container(case['container'], Bs)
     else:
         blocks = Bs[0]
-    op = im['D'](blocks, container(case['container'], structs), case['subs'])
-    return op, Bs
+    if case.get('default'):
+        # the constructor's default subscripts (the case records the string it must equal)
+        op = im['D'](blocks, container(case['container'], structs))
+    else:
+        op = im['D'](blocks, container(case['container'], structs), case['subs'])
+    return op, Bs, Bex
 
 
 def flat_leaves(tree):
@@ -214,7 +321,7 @@ def dense_matrix(op):
         for k in range(sizes[li]):
             leaves = []
             for lj, t in enumerate(ins):
-                a = np.zeros(sizes[lj], np.float32)
+                a = np.zeros(sizes[lj], t.dtype)
                 if lj == li:
                     a[k] = 1
                 leaves.append(jnp.asarray(a.reshape(t.shape)))
@@ -222,16 +329,24 @@ def dense_matrix(op):
             cols.append(np.concatenate([np.asarray(v).ravel() for v in jax.tree.leaves(y)]))
     if not cols:
         return []
-    return np.stack(cols, 1).tolist()
+    M = np.stack(cols, 1)
+    return [numlist(row) for row in M]
 
 
-def apply_flat(op, datas):
+def apply_flat(op, datas, den=1):
+    """op.mv on the leaves datas[k] = (re numerators, im numerators or None) / den, in the dtypes of
+    op.in_structure(); observation: [shape, entries] per output leaf and the output dtypes."""
     im = impl()
     jax, jnp, np = im['jax'], im['jnp'], im['np']
     ins, treedef = jax.tree.flatten(op.in_structure())
-    leaves = [jnp.asarray(np.array(d, dtype=np.float32).reshape(s.shape)) for d, s in zip(datas, ins)]
+    leaves = []
+    for (re_, im_), s in zip(datas, ins):
+        if im_ is not None and not np.issubdtype(s.dtype, np.complexfloating):
+            im_ = None
+        leaves.append(jnp.asarray(exact_np(re_, im_, den, s.shape, s.dtype, strict=False)[1]))
     y = op.mv(jax.tree.unflatten(treedef, leaves))
-    return [[list(v.shape), np.asarray(v).ravel().tolist()] for v in jax.tree.leaves(y)]
+    outs = jax.tree.leaves(y)
+    return [[list(v.shape), numlist(v)] for v in outs], [str(v.dtype) for v in outs]
 
 
 # ----------------------------------------------------------------------------------------------
@@ -404,6 +519,148 @@ class Check(PropertyCheck):
         self.stats['accepted_strings_einsum_rejects(skipped for values)'] = skipped
         return cases
 
+    # ------------------------------------------------------------------------------------------
+    # leaf ranks 1-4 (an ellipsis standing for 0-3 axes), sizes shared between distinct axes,
+    # default-subscript constructor path
+
+    FOCUS = [DEFAULT_SUBS, 'ji...,j...->i...', 'kij...,kj...->ki...', '...ij,...j->...i', 'ij,...j->...i',
+             'ij,j...->i...', 'i...j,j...->i...']
+    PROFILES = [
+        ('all2', {'i': 2, 'j': 2, 'k': 2}, [2, 2, 2]),
+        ('all3', {'i': 3, 'j': 3, 'k': 3}, [3, 3, 3]),
+        ('mixA', {'i': 2, 'j': 3, 'k': 2}, [3, 2, 3]),   # leading ellipsis axis = size of j
+        ('mixB', {'i': 3, 'j': 2, 'k': 3}, [2, 3, 2]),
+    ]
+    RANK_MODES = [('bare', 'shared', 1), ('bare', 'perleaf', 1), ('list', 'shared', 2), ('dict', 'perleaf', 2)]
+
+    def rank_case(self, s, rank, prof, neB, mode, default=False):
+        """A value case for string s (ellipsis in the leaf's subscript) with a first leaf of the
+        given rank; None when the rank is too small for the letters of the leaf."""
+        l, r, o = spec_split(s)
+        cont, md, nl = mode
+        e0 = rank - (len(r) - 1)
+        if e0 < 0:
+            return None
+        leaves = []
+        eB = None
+        for k in range(nl):
+            _, d, ell = self.PROFILES[(prof + (k if md == 'perleaf' else 0)) % len(self.PROFILES)]
+            e = e0 if k == 0 else (e0 + 1 if e0 < 3 and rank < 4 else max(e0 - 1, 0))
+            ex = ell[3 - e :] if e else []
+            if md == 'perleaf' or eB is None:
+                # the blocks' ellipsis: the last neB ellipsis dimensions of the leaf (right aligned)
+                eB = (ex[len(ex) - min(neB, len(ex)) :] if min(neB, len(ex)) else []) if '...' in l else []
+            elif eB and ex[len(ex) - len(eB) :] != eB:
+                return None
+            leaves.append({'shB': operand_shape(l, d, eB), 'shx': operand_shape(r, d, ex), 'shy': operand_shape(o, d, ex)})
+        if any(len(lf['shB']) < 2 for lf in leaves):
+            return None
+        if md == 'shared' and any(lf['shB'] != leaves[0]['shB'] for lf in leaves):
+            return None
+        c = {'kind': 'values', 'subs': s, 'mode': md, 'container': cont, 'leaves': leaves, 'cls': 'rank'}
+        if default:
+            c['default'] = True
+        return c
+
+    def rank_cases(self):
+        quick = self.tier == 'quick'
+        out = []
+        # (a) the default string (through the default argument and explicitly), its transpose and a
+        #     few named strings: every leaf rank x every size profile x every blocks-ellipsis rank
+        n = 0
+        for s in self.FOCUS:
+            for default in ([True, False] if s == DEFAULT_SUBS else [False]):
+                for rank in (1, 2, 3, 4):
+                    for prof in range(len(self.PROFILES)):
+                        for neB in (0, 1, 2, 3):
+                            if neB and ('...' not in spec_split(s)[0] or neB > rank - (len(spec_split(s)[1]) - 1)):
+                                continue
+                            n += 1
+                            modes = self.RANK_MODES if not quick else [self.RANK_MODES[n % len(self.RANK_MODES)]]
+                            if quick and s != DEFAULT_SUBS and neB == 3:
+                                continue
+                            for mode in modes:
+                                c = self.rank_case(s, rank, prof, neB, mode, default)
+                                if c is None and mode[2] > 1:
+                                    c = self.rank_case(s, rank, prof, neB, self.RANK_MODES[0], default)
+                                if c is not None:
+                                    out.append(c)
+        # (b) every accepted string whose leaf subscript has an ellipsis: ranks, profiles and
+        #     blocks-ellipsis ranks rotate with the index of the string (quick: every 4th string)
+        acc = [s for s in self.accepted_strings() if einsum_accepts(s) and '...' in spec_split(s)[1]]
+        for n, s in enumerate(acc):
+            if quick and n % 4 != 1:
+                continue
+            picks = [n // 4] if quick else [n, n // 3 + 5]
+            for q in picks:
+                nlet = len(spec_split(s)[1]) - 1
+                rank = nlet + (q % (5 - nlet)) if nlet < 4 else nlet
+                rank = max(rank, 1)
+                c = self.rank_case(s, rank, (q // 4) % 4, (q // 16) % 3, self.RANK_MODES[(q // 2) % len(self.RANK_MODES)])
+                if c is None:
+                    c = self.rank_case(s, rank, (q // 4) % 4, 0, self.RANK_MODES[(q // 2) % 2])
+                if c is not None:
+                    out.append(c)
+        seen, uniq = set(), []
+        for c in out:
+            k = lib.case_id(c)
+            if k not in seen:
+                seen.add(k)
+                uniq.append(c)
+        return uniq
+
+    # ------------------------------------------------------------------------------------------
+    # dtype combinations between blocks and leaves
+
+    DT_SUBS = [(DEFAULT_SUBS, True), (DEFAULT_SUBS, False), ('ikj,kj->ki', False), ('...ij,...j->...i', False)]
+    DT_LAYOUTS = [('bare', 'shared', 1), ('bare', 'perleaf', 1), ('list', 'shared', 2), ('dict', 'shared', 2),
+                  ('dict', 'perleaf', 2), ('nested', 'perleaf', 3)]
+    DT32 = ['int32', 'float32', 'complex64']
+    DT64 = ['int64', 'float64', 'complex128']
+
+    def dtype_case(self, sub, layout, bdt0, xdt0, x64):
+        s, default = sub
+        cont, md, nl = layout
+        l, r, o = spec_split(s)
+        pool = (self.DT32 + self.DT64) if x64 else self.DT32
+        d = {'i': 2, 'j': 3, 'k': 2}
+        leaves, xdt, bdt = [], [], []
+        for k in range(nl):
+            ex = [[2], [], [2, 2]][k] if '...' in r else []
+            dk = d if md == 'shared' or k == 0 else {'i': 3, 'j': 2, 'k': 2}
+            leaves.append({'shB': operand_shape(l, dk, []), 'shx': operand_shape(r, dk, ex), 'shy': operand_shape(o, dk, ex)})
+            # the other leaves (and their blocks) take the next dtypes of the pool: mixed pytrees
+            xdt.append(pool[(pool.index(xdt0) + k) % len(pool)])
+            if md == 'perleaf' or k == 0:
+                bdt.append(pool[(pool.index(bdt0) + 2 * k) % len(pool)])
+        inexact = lambda dts: any(dt_kind(t) != 'i' for t in dts)
+        denB = FINE if any(dt_wide(t) for t in bdt) else 2 if inexact(bdt) else 1
+        denx = 2 if inexact(xdt) else 1
+        if denB != FINE and any(dt_wide(t) for t in xdt):
+            denx = FINE
+        c = {'kind': 'values', 'subs': s, 'mode': md, 'container': cont, 'leaves': leaves, 'cls': 'dtype',
+             'bdt': bdt, 'xdt': xdt, 'denB': denB, 'denx': denx, 'deny': 2 if inexact(bdt + xdt) else 1}
+        if default:
+            c['default'] = True
+        if x64:
+            c['x64'] = True
+        return c
+
+    def dtype_cases(self):
+        quick = self.tier == 'quick'
+        out = []
+        pairs32 = [(b, x, False) for b in self.DT32 for x in self.DT32]
+        pairs64 = [(b, x, True) for b in self.DT32 + self.DT64 for x in self.DT32 + self.DT64
+                   if (b in self.DT64 or x in self.DT64) and not (b in self.DT64 and x in self.DT64 and b != x)]
+        for pi, (b, x, x64) in enumerate(pairs32 + pairs64):
+            for li, layout in enumerate(self.DT_LAYOUTS):
+                subs = [self.DT_SUBS[(pi + li) % len(self.DT_SUBS)]] if quick else self.DT_SUBS
+                if quick and x64 and (pi + li) % 2:
+                    continue
+                for sub in subs:
+                    out.append(self.dtype_case(sub, layout, b, x, x64))
+        return out
+
     def cases(self):
         cases = [{'kind': 'strings', 'subs': b} for b in self.string_batches()]
         for s in MALFORMED:
@@ -413,6 +670,8 @@ class Check(PropertyCheck):
             for s in ('ij,j->i', 'ij...,j...->i...', 'ij,j', 'i j,j->i'):
                 cases.append({'kind': 'string1', 'subs': s, 'via': 'ctor', 'ranks': ranks})
         cases += self.value_cases()
+        cases += self.rank_cases()
+        cases += self.dtype_cases()
         self.stats['strings_compared'] = sum(len(c['subs']) for c in cases if c['kind'] == 'strings')
         self.exhaustive = True
         return cases
@@ -433,7 +692,7 @@ class Check(PropertyCheck):
     def distribution(self, cases):
         d = {}
         for c in cases:
-            k = c['kind'] + (':' + c['mode'] + '/' + c['container'] if c['kind'] == 'values' else '')
+            k = c['kind'] + (':' + c.get('cls', 'subs') + ':' + c['mode'] + '/' + c['container'] if c['kind'] == 'values' else '')
             d[k] = d.get(k, 0) + 1
         return d
 
@@ -459,21 +718,46 @@ class Check(PropertyCheck):
             except Exception as e:
                 return {'err': type(e).__name__}
         # values
+        if case.get('x64'):
+            with impl()['jax'].enable_x64(True):
+                return self.run_values(case)
+        return self.run_values(case)
+
+    def run_values(self, case):
         im = impl()
         np = im['np']
         obs = {}
+        bdt, xdt, denB, denx, deny = case_dtypes(case)
         try:
-            op, Bs = build_op(case)
+            op, Bs, Bex = build_op(case)
+        except AssertionError:
+            raise
         except Exception as e:
             return {'ctor_error': type(e).__name__}
-        xs = [vec_data(lf['shx'], 1 + n) for n, lf in enumerate(case['leaves'])]
-        ys = [vec_data(lf['shy'], 2 + n) for n, lf in enumerate(case['leaves'])]
+        obs['subs'] = op.subscripts
+        xs = leaf_nums(case, 'x')
+        ys = leaf_nums(case, 'y')
         try:
-            obs['fwd'] = apply_flat(op, xs)
+            obs['fwd'], obs['fwd_dt'] = apply_flat(op, xs, denx)
         except Exception as e:
             return {'mv_error': type(e).__name__, 'msg': str(e)[:200]}
         obs['in'] = struct_obs(op.in_structure())
         obs['out'] = struct_obs(op.out_structure())
+        # reference for the first clause of the property: einsum(subscripts, blocks, leaf) per leaf,
+        # NumPy in float64/complex128 on the exact values, in the dtype JAX's promotion gives
+        ref, exp_dt = [], []
+        shared = case['mode'] != 'perleaf'
+        for n, lf in enumerate(case['leaves']):
+            B = Bex[0 if shared else n]
+            x = exact_np(xs[n][0], xs[n][1], denx, lf['shx'], xdt[n])[0]
+            y = ref_einsum(case['subs'], B, x)
+            dt = expected_out_dtype(bdt[0 if shared else n], xdt[n])
+            exp_dt.append(dt)
+            if dt_kind(dt) == 'c':
+                y = y.astype(np.complex128)
+            ref.append([list(y.shape), numlist(y)])
+        obs['ref_fwd'] = ref
+        obs['exp_dt'] = exp_dt
         try:
             t = op.T
         except Exception as e:
@@ -483,26 +767,17 @@ class Check(PropertyCheck):
         obs['T_in'] = struct_obs(t.in_structure())
         try:
             obs['T_out'] = struct_obs(t.out_structure())
-            obs['bwd'] = apply_flat(t, ys)
+            obs['bwd'], obs['bwd_dt'] = apply_flat(t, ys, deny)
             obs['M'] = dense_matrix(op)
             obs['MT'] = dense_matrix(t)
             tt = t.T
             obs['TT'] = tt.subscripts
-            obs['TT_fwd'] = apply_flat(tt, xs)
+            obs['TT_fwd'], _ = apply_flat(tt, xs, denx)
             obs['same_blocks'] = bool(t.blocks is op.blocks) or all(
                 a is b for a, b in zip(flat_leaves(t.blocks), flat_leaves(op.blocks))
             )
         except Exception as e:
             obs['T_error'] = f'{type(e).__name__}: {str(e)[:200]}'
-        # reference for the first clause of the property: einsum(subscripts, blocks, leaf) per leaf
-        ref = []
-        shared = case['mode'] != 'perleaf'
-        for n, lf in enumerate(case['leaves']):
-            B = np.asarray(Bs[0 if shared else n], dtype=np.float64)
-            x = np.array(xs[n], dtype=np.float64).reshape(lf['shx'])
-            y = ref_einsum(case['subs'], B, x)
-            ref.append([list(y.shape), y.ravel().tolist()])
-        obs['ref_fwd'] = ref
         return obs
 
     def model_term(self, case):
@@ -519,26 +794,87 @@ class Check(PropertyCheck):
                 return 'transposed_s ' + cstr(case['subs'])
             return f'ctor_s {cnatlist(case["ranks"])} {cstr(case["subs"])}'
         leaves = case['leaves']
-        Bs = [carr(lf['shB'], block_data(lf['shB'], n)) for n, lf in enumerate(leaves)]
-        xs = [carr(lf['shx'], vec_data(lf['shx'], 1 + n)) for n, lf in enumerate(leaves)]
-        ys = [carr(lf['shy'], vec_data(lf['shy'], 2 + n)) for n, lf in enumerate(leaves)]
-        bl = f'(PerLeaf {clist(Bs)})' if case['mode'] == 'perleaf' else f'(Shared {Bs[0]})'
-        return f'observe_op {cstr(case["subs"])} {bl} {clist(xs)} {clist(ys)}'
+        bn, xn, yn = block_nums(case), leaf_nums(case, 'x'), leaf_nums(case, 'y')
+        ys = [carr(lf['shy'], yn[n][0]) for n, lf in enumerate(leaves)]
+        terms = []
+        for bp, xp in self.parts(case):
+            # real / imaginary parts of the blocks and of the leaves (zero where an array is real)
+            Bs = [carr(leaves[n]['shB'], b[bp] if b[bp] is not None else [0] * len(b[0])) for n, b in enumerate(bn)]
+            xs = [carr(lf['shx'], xn[n][xp] if xn[n][xp] is not None else [0] * len(xn[n][0])) for n, lf in enumerate(leaves)]
+            bl = f'(PerLeaf {clist(Bs)})' if case['mode'] == 'perleaf' else f'(Shared {Bs[0]})'
+            terms.append(f'observe_op {cstr(case["subs"])} {bl} {clist(xs)} {clist(ys)}')
+        if 'bdt' not in case:
+            return terms[0]
+        return clist(terms)
+
+    @staticmethod
+    def parts(case):
+        """(block part, leaf part) pairs the model evaluates: 0 = real, 1 = imaginary numerators."""
+        bdt, xdt, _, _, _ = case_dtypes(case)
+        bps = [0, 1] if any(dt_kind(d) == 'c' for d in bdt) else [0]
+        xps = [0, 1] if any(dt_kind(d) == 'c' for d in xdt) else [0]
+        return [(bp, xp) for bp in bps for xp in xps]
 
     def decode(self, case, v):
         if case['kind'] == 'strings':
             return [dec_res(x) for x in v]
         if case['kind'] == 'string1':
             return dec_res(v)
-        if v is None:
+        if 'bdt' not in case:
+            if v is None:
+                return {'model': 'subscripts do not parse'}
+            fwd, res, bwd = v['a'][0]
+            return {'fwd': dec_arrs(fwd), 'T': dec_res(res), 'bwd': dec_arrs(bwd)}
+        # dtype cases: one observation per (block part, leaf part); einsum is bilinear:
+        #   Re = B_re x_re - B_im x_im,  Im = B_re x_im + B_im x_re;  the inputs of op.T are real
+        if any(x is None for x in v):
             return {'model': 'subscripts do not parse'}
-        fwd, res, bwd = v['a'][0]
-        return {'fwd': dec_arrs(fwd), 'T': dec_res(res), 'bwd': dec_arrs(bwd)}
+        got = {pp: x['a'][0] for pp, x in zip(self.parts(case), v)}
+
+        def comb(k, plus, minus):
+            terms = [(1, dec_arrs(got[pp][k])) for pp in plus if pp in got] + [(-1, dec_arrs(got[pp][k])) for pp in minus if pp in got]
+            if any(a is None for _, a in terms):
+                return None
+            if not terms:
+                base = dec_arrs(got[(0, 0)][k])
+                return None if base is None else [[sh, [0] * len(d)] for sh, d in base]
+            out = [[sh, [0] * len(d)] for sh, d in terms[0][1]]
+            for sg, arrs in terms:
+                for o, (_, d) in zip(out, arrs):
+                    o[1] = [a + sg * b for a, b in zip(o[1], d)]
+            return out
+
+        return {
+            'T': dec_res(got[(0, 0)][1]),
+            'fwd_re': comb(0, [(0, 0)], [(1, 1)]),
+            'fwd_im': comb(0, [(0, 1), (1, 0)], []),
+            'bwd_re': comb(2, [(0, 0)], []),
+            'bwd_im': comb(2, [(1, 0)], []),
+        }
 
     def comparable(self, case, obs):
         if case['kind'] != 'values' or not isinstance(obs, dict) or 'fwd' not in obs:
             return obs
-        return {'fwd': obs.get('fwd'), 'T': obs.get('T'), 'bwd': obs.get('bwd')}
+        if 'bdt' not in case:
+            return {'fwd': obs.get('fwd'), 'T': obs.get('T'), 'bwd': obs.get('bwd')}
+        _, _, denB, denx, deny = case_dtypes(case)
+
+        def split(arrs, scale, part):
+            if arrs is None:
+                return None
+            out = []
+            for sh, d in arrs:
+                vals = [(e[part] if isinstance(e, list) else (e if part == 0 else 0)) for e in d]
+                out.append([sh, [lib.canon(Fraction(str(x)) * scale) for x in vals]])
+            return out
+
+        return {
+            'T': obs.get('T'),
+            'fwd_re': split(obs.get('fwd'), denB * denx, 0),
+            'fwd_im': split(obs.get('fwd'), denB * denx, 1),
+            'bwd_re': split(obs.get('bwd'), denB * deny, 0),
+            'bwd_im': split(obs.get('bwd'), denB * deny, 1),
+        }
 
     # ------------------------------------------------------------------------------------------
     def check_string(self, s, out):
@@ -586,13 +922,22 @@ class Check(PropertyCheck):
         # values
         if 'fwd' not in obs:
             return f'einsum/constructor failed on an accepted string: {obs}'
+        if obs.get('subs') != case['subs'].replace(' ', ''):
+            return f'the constructor stored the subscripts {obs.get("subs")!r}, expected {case["subs"]!r}'
         if obs['fwd'] != obs.get('ref_fwd'):
             return f'mv differs from einsum(subscripts, blocks, leaf) per leaf: {obs["fwd"]} vs {obs.get("ref_fwd")}'
+        if obs.get('fwd_dt') != obs.get('exp_dt'):
+            return f'mv returns dtypes {obs.get("fwd_dt")}, einsum(subscripts, blocks, leaf) has {obs.get("exp_dt")}'
+        if [d for _, d in obs['out']['leaves']] != obs.get('exp_dt'):
+            return f'out_structure has dtypes {obs["out"]["leaves"]}, einsum(subscripts, blocks, leaf) has {obs.get("exp_dt")}'
         if isinstance(obs.get('T'), dict):
             return f'transpose raised {obs["T"]} on a string with one contracted and one free block axis'
         if 'T_error' in obs:
             return f'the transposed operator fails: {obs["T_error"]}'
-        if obs['T_in'] != obs['out'] or obs['T_out'] != obs['in']:
+        # blocks of a wider dtype than the leaf promote the output, and the transpose maps it to
+        # the promoted dtype: shapes and tree are compared there, dtypes only for equal dtypes
+        nodt = (lambda st: {'tree': st['tree'], 'leaves': [sh for sh, _ in st['leaves']]}) if 'bdt' in case else (lambda st: st)
+        if obs['T_in'] != obs['out'] or nodt(obs['T_out']) != nodt(obs['in']):
             return f'structures of the transpose are not swapped: in {obs["in"]} out {obs["out"]} T_in {obs["T_in"]} T_out {obs["T_out"]}'
         M, MT = obs['M'], obs['MT']
         Mt = [list(r) for r in zip(*M)] if M else []
